@@ -223,6 +223,48 @@ func (env *canonEnv) canonStmt(s ast.Stmt) string {
 		return out
 	case *ast.BlockStmt:
 		return "{" + env.canonStmts(x.List) + "}"
+	case *ast.IncDecStmt:
+		return env.canon(x.X) + x.Tok.String()
+	case *ast.BranchStmt:
+		if x.Label != nil {
+			return x.Tok.String() + " " + x.Label.Name
+		}
+		return x.Tok.String()
+	case *ast.DeclStmt:
+		gd, ok := x.Decl.(*ast.GenDecl)
+		if !ok || gd.Tok != token.VAR {
+			return "?decl"
+		}
+		var parts []string
+		for _, sp := range gd.Specs {
+			vs := sp.(*ast.ValueSpec)
+			for i, n := range vs.Names {
+				t := ""
+				if o := env.p.Info.Defs[n]; o != nil {
+					t = types.TypeString(o.Type(), func(*types.Package) string { return "" })
+				}
+				v := ""
+				if i < len(vs.Values) {
+					v = "=" + env.canon(vs.Values[i])
+				}
+				parts = append(parts, "var "+env.canon(n)+" "+t+v)
+			}
+		}
+		return strings.Join(parts, ";")
+	case *ast.ForStmt:
+		out := "for("
+		if x.Init != nil {
+			out += env.canonStmt(x.Init)
+		}
+		out += ";"
+		if x.Cond != nil {
+			out += env.canon(x.Cond)
+		}
+		out += ";"
+		if x.Post != nil {
+			out += env.canonStmt(x.Post)
+		}
+		return out + "){" + env.canonStmts(x.Body.List) + "}"
 	}
 	return "?stmt"
 }
